@@ -198,7 +198,7 @@ prop("C03", modules=["codehash"],
 FDS = "storage_filesystem:_FilesystemDataSource."
 prop("C08", modules=["crash"],
      functions=[FDS + n for n in ("_write_non_versioned_link", "output", "_read_non_versioned_link", "exists_nonversioned", "get_versioned_key",
-                                  "exists_versioned", "input_nonversioned", "input_versioned", "_delete_non_versioned_link", "delete_nonversioned_key")]
+                                  "exists_versioned", "input_nonversioned", "input_versioned", "_delete_non_versioned_link", "delete_nonversioned_key", "_get_path_versioned@metadata-key")]
      + ["storage_base:DataSourceMetadataSource.get_mementos", "storage_base:Codec.BlobStrategy.store", SBB + "memoize"],
      assume_props=["C05", "C06", "C07", "C19"], custom_replay="crash_replay", extra_checks=["contracts.extra:crash_faults"],
      function_modules={"storage_base:Codec.BlobStrategy.store": ["codec"], SBB + "memoize": ["storage"]},
